@@ -92,6 +92,20 @@ CLAIMS = {
         note="Trusted: CPython (bytes repr/eval), z3; CRC fold summary keyed on term identity (exact for short messages, C08 lemmas Z/Z' for the trailer); "
              "lengths not listed are outside the claim.",
         ref="DESIGN.md section 5 C07", technique=TECH),
+    "C11": dict(
+        text="Bounded symbolic execution of the real SocketWrapper over a socket double whose recv lengths, timeouts/OS errors and close are solver decisions: bounded "
+             "histories (all streams of n symbolic bytes, all segmentations, read sizes symbolic) and a ONE-STEP check from an arbitrary buffer state (which covers histories "
+             "of any length): never more than requested, fewer only after close/fault, result+buffer == old buffer+received term by term; readline terminator rule; reader "
+             "over the socket equals the generator's frame list.",
+        note="Trusted: CPython, z3, recv contract of the double; bufsize values {1,2,3,4096}.",
+        ref="DESIGN.md section 5 C11", technique=TECH),
+    "C12": dict(
+        text="Bounded symbolic execution of the real dechunk/_recv/read over the socket double: well-formed chunked bodies with symbolic chunk data (may equal CR/LF/hex "
+             "digits), every placement of up to 3 receive cuts as solver decisions, chunked alone and with gzip/compress/deflate where zlib.decompress is an uninterpreted "
+             "function (so 'the decompressor is applied to exactly each chunk body, in order' is decidable). Delivered bytes must equal the RFC 9112 reference over the "
+             "unsegmented stream, term by term.",
+        note="Trusted: CPython, z3, BytesIO/bytes/int shims of the socketwrapper module; zlib itself is outside (FFI).",
+        ref="DESIGN.md section 5 C12", technique=TECH),
 }
 
 NA_REASON = "check under construction in this build round (see DESIGN.md); will be claimed once its harness lands"
